@@ -67,8 +67,8 @@ ListOf(s) == CASE s = LAB -> <<"a", "b">>
                [] s = LPQ -> <<"p", "q">>
                [] OTHER -> <<>>
 \* numbers as the template system sees them (strings); anything else makes strconv.Atoi fail
-NumTexts == {"0", "1", "2", "3"}
-NumOf(s) == CASE s = "0" -> 0 [] s = "1" -> 1 [] s = "2" -> 2 [] s = "3" -> 3 [] OTHER -> 0
+NumTexts == {"-1", "0", "1", "2", "3"}
+NumOf(s) == CASE s = "-1" -> -1 [] s = "0" -> 0 [] s = "1" -> 1 [] s = "2" -> 2 [] s = "3" -> 3 [] OTHER -> 0
 \* a range that depends on a variable x (typically the iteration variable of an ENCLOSING iterator):
 \* the list held by the variable named cards_<value of x>   (range: "{{ $env['cards_' + x] }}")
 CardsVar(v) == "cards_" \o v
@@ -162,6 +162,8 @@ RangeOf(f, vstack) ==
   CASE f.t = "list" -> ListOf(f.s)
     [] f.t = "var" -> ListOf(vstack[f.x])
     [] f.t = "dep" -> ListOf(vstack[CardsVar(vstack[f.x])])
+    \* begin..end with end < begin - by one or by more, with negative bounds - is the EMPTY range (the loop
+    \* `for j := begin; j <= end; j++` of iteratorRangeFor.GetRange does not run): no child, no error
     [] f.t = "be" -> LET b == BeginOf(f, vstack) e == EndOf(f, vstack)
                      IN [j \in 1..(e - b + 1) |-> ToString(b + j - 1)]
     [] OTHER -> <<>>
